@@ -1156,6 +1156,198 @@ fn stripped_proof_body(c: &CompCase, rec: &mut Rec) -> CaseResult {
 }
 
 // ---------------------------------------------------------------------------------------------
+// end to end, replayed expansion: the genuine RRset + RRSIG of a wildcard `*.X` (as the server
+// hands it out for a name it really matches) is re-owned to a query name below X whose true
+// answer for that type is negative -- something closer than `*.X` exists (another wildcard, an
+// empty non-terminal, the name itself), or not. The forger may add any genuine record of the zone:
+// every NSEC of the chain with its RRSIG goes into the authority section, and, where the server's
+// honest answer for another type at the query name is itself a wildcard expansion (from the closer
+// wildcard), that RRset is put in front of or behind the replayed one. No set of genuine NSECs
+// entails a false claim, so the replayed RRset must not come back Secure.
+
+fn replayed_expansion_body(c: &CompCase, rec: &mut Rec) -> CaseResult {
+    use futures_util::StreamExt;
+    use hickory_net::dnssec::DnssecDnsHandle;
+    use hickory_net::xfer::DnsHandle;
+    use hickory_proto::dnssec::rdata::DNSSECRData;
+    use hickory_proto::dnssec::Proof;
+    use hickory_proto::op::{DnsRequestOptions, Message, MessageType, OpCode};
+    use hickory_proto::rr::{RData, RecordType};
+
+    let cx = hk_ctx(&c.zone)?;
+    let (zone, hz) = (&cx.0, &cx.1);
+    let q = abs_q(zone, c.q.as_str());
+    let qn = to_name(&q);
+    if qn.is_wildcard() || q.len() <= zone.apex.len() {
+        rec.discard("query-name-is-a-wildcard-or-the-apex");
+        return Ok(());
+    }
+    // a type the true answer has nothing of, owned by a wildcard *.X with X a proper ancestor of q
+    let mut pick: Option<(u16, Name, Vec<Record>)> = None;
+    for t in [c.qtype, ty::A, ty::TXT] {
+        if t != ty::A && t != ty::TXT {
+            continue;
+        }
+        if !matches!(zone.truth(&q, t), Truth::NoData { at_cut: false, .. } | Truth::NxDomain { .. } | Truth::WildNoData { .. }) {
+            continue;
+        }
+        for (o, types) in zone.nodes.iter() {
+            if !(o.first().is_some_and(|l| l.as_slice() == b"*") && types.contains(&t)) {
+                continue;
+            }
+            let base = &o[1..];
+            if !(base.len() < q.len() && q[q.len() - base.len()..] == *base) {
+                continue;
+            }
+            // a name the wildcard really answers (label `c` is not used by the zone generator)
+            let mut n = vec![b"c".to_vec()];
+            n.extend(base.iter().cloned());
+            if !matches!(zone.truth(&n, t), Truth::WildAnswer { via_cname: false, .. }) {
+                continue;
+            }
+            let donor = to_name(&n);
+            let m = zb::ask(hz, &donor, rtype(t)).map_err(|e| Fail::new("harness-ask", e))?;
+            let rrs: Vec<Record> = m
+                .answers
+                .iter()
+                .filter(|r| r.name.to_lowercase() == donor.to_lowercase())
+                .filter(|r| r.record_type() == rtype(t) || matches!(&r.data, RData::DNSSEC(DNSSECRData::RRSIG(s)) if s.input().type_covered == rtype(t)))
+                .cloned()
+                .collect();
+            if rrs.iter().any(|r| r.record_type() == rtype(t)) && rrs.iter().any(|r| r.record_type() == RecordType::RRSIG) {
+                pick = Some((t, to_name(o), rrs));
+                break;
+            }
+        }
+        if pick.is_some() {
+            break;
+        }
+    }
+    let Some((t, wild, replayed)) = pick else {
+        rec.discard("no-wildcard-above-the-query-name-owns-a-type-the-name-lacks");
+        return Ok(());
+    };
+    let truth = zone.truth(&q, t);
+    rec.class(format!("truth-{}", truth.kind()));
+    // every NSEC of the chain with its signature, as the server hands them out
+    let mut authority: Vec<Record> = vec![];
+    for (owner, _) in hz.chain_nsec.iter() {
+        let m = zb::ask(hz, owner, RecordType::NSEC).map_err(|e| Fail::new("harness-ask", e))?;
+        for r in m.answers.iter().filter(|r| r.name.to_lowercase() == owner.to_lowercase()) {
+            if r.record_type() == RecordType::NSEC || matches!(&r.data, RData::DNSSEC(DNSSECRData::RRSIG(s)) if s.input().type_covered == RecordType::NSEC) {
+                authority.push(r.clone());
+            }
+        }
+    }
+    if !authority.iter().any(|r| r.record_type() == RecordType::NSEC) {
+        rec.discard("server-does-not-hand-out-nsec-records-on-request");
+        return Ok(());
+    }
+    // the honest answer for the other type at the query name, if it is a wildcard expansion
+    let other = if t == ty::A { ty::TXT } else { ty::A };
+    let mut companion: Vec<Record> = vec![];
+    if matches!(zone.truth(&q, other), Truth::WildAnswer { via_cname: false, .. }) {
+        let m = zb::ask(hz, &qn, rtype(other)).map_err(|e| Fail::new("harness-ask", e))?;
+        companion = m
+            .answers
+            .iter()
+            .filter(|r| r.record_type() == rtype(other) || matches!(&r.data, RData::DNSSEC(DNSSECRData::RRSIG(s)) if s.input().type_covered == rtype(other)))
+            .cloned()
+            .collect();
+    }
+    let companion_first = crate::core::fixed_hash(&[b"c08-replayed", c.zone.as_str().as_bytes(), c.q.as_str().as_bytes()]) % 2 == 0;
+    rec.class(match (companion.is_empty(), companion_first) {
+        (true, _) => "answer:replayed-rrset-alone",
+        (false, true) => "answer:expansion-of-the-closer-wildcard-then-replayed-rrset",
+        (false, false) => "answer:replayed-rrset-then-expansion-of-the-closer-wildcard",
+    });
+    let mut forged = Message::new(0, MessageType::Response, OpCode::Query);
+    forged.metadata.authoritative = true;
+    forged.add_query(Query::new(qn.clone(), rtype(t)));
+    let renamed: Vec<Record> = replayed
+        .into_iter()
+        .map(|mut r| {
+            r.name = qn.clone();
+            r
+        })
+        .collect();
+    let (first, second) = if companion_first { (companion, renamed) } else { (renamed, companion) };
+    for r in first.into_iter().chain(second) {
+        forged.add_answer(r);
+    }
+    for r in authority {
+        forged.add_authority(r);
+    }
+    rec.nontrivial();
+
+    let mut sim = crate::sim::Sim::new(zb::T0 + 60);
+    let handle = ForgingHandle {
+        inner: zb::CatalogHandle { catalog: hz.catalog.clone(), log: Default::default() },
+        qname: qn.clone(),
+        qtype: rtype(t),
+        forged: std::sync::Arc::new(forged),
+    };
+    let dh = DnssecDnsHandle::with_trust_anchor(handle, zb::trust_anchor(hz)).validation_cache_size(256);
+    let query = Query::new(qn.clone(), rtype(t));
+    let r = sim
+        .run(
+            async move {
+                let mut s = dh.lookup(query, DnsRequestOptions::default());
+                s.next().await
+            },
+            10_000,
+        )
+        .map_err(|e| Fail::new("harness-sim", format!("simulation ended with {e:?}")))?;
+    let accepted = match &r {
+        Some(Ok(resp)) => resp.answers.iter().any(|a| a.record_type() == rtype(t) && a.name.to_lowercase() == qn.to_lowercase() && a.proof == Proof::Secure),
+        _ => false,
+    };
+    rec.class(if accepted { "replayed-expansion-accepted" } else { "replayed-expansion-rejected" });
+    if rec.wants_note() {
+        rec.note(format!("zone [{}] query {qn} {} truth {truth}: {} RRset of {wild} re-owned to the query name", zone.render(), ty::mnemonic(t), ty::mnemonic(t)));
+    }
+    if accepted {
+        use crate::refm::zonemodel::{is_wildcard_name, Exist};
+        // Two recorded defects of the validator already let a replayed expansion through, and both are
+        // recognised by what the zone looks like, not by the verdict: (1) the query name lies below an
+        // existing `*` node (Name::num_labels() does not count a leading asterisk); (2) a closer
+        // encloser exists but no wildcard `*.<Y>` exists for any Y between the wildcard's parent and
+        // the query name -- no_closer_matches asks only that those intermediate wildcards be covered
+        // and never compares the proven closest encloser with the RRSIG Labels field. When such an
+        // intermediate wildcard DOES exist, even that check must refuse: anything accepted then is new.
+        let star_ancestor = (zone.apex.len() + 1..q.len()).any(|len| {
+            let anc = &q[q.len() - len..];
+            is_wildcard_name(anc) && zone.exist(anc) != Exist::No
+        });
+        let base_len = wild.num_labels() as usize; // labels of X (num_labels does not count the `*`)
+        let closer_wildcard = (base_len + 1..q.len()).any(|len| {
+            let mut w = vec![b"*".to_vec()];
+            w.extend(q[q.len() - len..].iter().cloned());
+            zone.exist(&w) != Exist::No
+        });
+        let sig = if star_ancestor {
+            "nsec-query-below-wildcard-label"
+        } else if !closer_wildcard {
+            "nsec-wildcard-answer-closer-encloser-exists"
+        } else {
+            "replayed-wildcard-expansion-accepted-although-the-name-has-no-such-data"
+        };
+        rec.class(format!("accepted:{sig}"));
+        return triage(Fail::new(
+            sig,
+            format!(
+                "zone [{}] query {qn} {} truth {truth}: the {} RRset of {wild}, re-owned to the query name with its genuine RRSIG, came back Secure; outcome {:?}",
+                zone.render(),
+                ty::mnemonic(t),
+                ty::mnemonic(t),
+                r.as_ref().map(|x| x.as_ref().map(|m| (m.metadata.response_code, m.answers.iter().map(|a| (a.record_type(), a.proof)).collect::<Vec<_>>())).map_err(|e| e.to_string()))
+            ),
+        ));
+    }
+    Ok(())
+}
+
+// ---------------------------------------------------------------------------------------------
 // the chain hickory generates = the chain RFC 4035 §2.3 prescribes (the property's state anchor)
 
 #[derive(Clone, Debug, Serialize, Deserialize)]
@@ -1287,6 +1479,7 @@ pub fn check() -> Option<Check> {
     let comp_e2e = prop("complete_e2e", 5_000, 150_000, |_t: Tier| sampled_comp(6), e2e_body);
     let forged_e2e = prop("sound_forged_expansion_e2e", 20_000, 400_000, |_t: Tier| sampled_comp(6), forged_expansion_body);
     let stripped_e2e = prop("sound_stripped_proof_e2e", 12_000, 200_000, |_t: Tier| sampled_comp(6), stripped_proof_body);
+    let replayed_e2e = prop("sound_replayed_expansion_e2e", 20_000, 400_000, |_t: Tier| sampled_comp(6), replayed_expansion_body);
     Some(Check {
         id: "C08",
         level: "exploration",
@@ -1308,6 +1501,7 @@ pub fn check() -> Option<Check> {
             comp_e2e,
             forged_e2e,
             stripped_e2e,
+            replayed_e2e,
         ],
     })
 }
